@@ -1,6 +1,128 @@
 package main
 
+import (
+	"flag"
+	"fmt"
+	"sort"
+	"strings"
+	"sync"
+	"time"
+
+	"verif/sim"
+)
+
+// selftest: determinism of the machinery itself. For every claimed property
+// the same run indices are executed in several fresh worker processes, under
+// different GOMAXPROCS values, in forward and reverse order (so state leaking
+// from one run into the next inside a process shows up), and - for C11 - also
+// in the -race worker. Event-log hash, canonical tape and violation keys of
+// every run must be identical everywhere. Exit 0 = deterministic, 1 = not.
 func cmdSelftest(args []string) int {
-	fatal2("selftest: not built yet")
-	return 2
+	fs := flag.NewFlagSet("selftest", flag.ExitOnError)
+	k := fs.Int("runs", 200, "run indices per property")
+	procs := fs.Int("procs", 30, "worker processes per property")
+	seed := fs.Int64("seed", envInt("VERIF_SEED", 1), "base seed")
+	fs.Parse(args)
+	names := fs.Args()
+	if len(names) == 0 {
+		for p := range props {
+			names = append(names, p)
+		}
+	}
+	sort.Strings(names)
+	bin, err := buildWorker(false)
+	if err != nil {
+		fatal2("%v", err)
+	}
+	binRace, err := buildWorker(true)
+	if err != nil {
+		fatal2("%v", err)
+	}
+	bad := 0
+	for _, prop := range names {
+		cfg := props[prop]
+		if cfg == nil {
+			fatal2("unknown property %s", prop)
+		}
+		r := &runner{cfg: cfg, prop: prop, tier: "quick", seed: *seed}
+		type key struct{ run int64 }
+		type obs struct{ hash, tape, viol string }
+		var mu sync.Mutex
+		seen := map[int64]map[obs][]string{}
+		var wg sync.WaitGroup
+		start := time.Now()
+		gmp := []int{1, 4, 16}
+		sem := make(chan struct{}, 16)
+		for p := 0; p < *procs; p++ {
+			p := p
+			wg.Add(1)
+			sem <- struct{}{}
+			go func() {
+				defer wg.Done()
+				defer func() { <-sem }()
+				race := cfg.RaceQuickRuns > 0 && p%5 == 4
+				b := bin
+				if race {
+					b = binRace
+				}
+				g := gmp[p%len(gmp)]
+				w, e := startWorker(b, race, g)
+				if e != nil {
+					fatal2("%v", e)
+				}
+				defer w.stop()
+				label := fmt.Sprintf("proc%d(GOMAXPROCS=%d,race=%v,reverse=%v)", p, g, race, p%2 == 1)
+				for i := 0; i < *k; i++ {
+					run := int64(i)
+					if p%2 == 1 {
+						run = int64(*k - 1 - i)
+					}
+					resp, ci, e := w.do(r.request(run), time.Duration(cfg.TimeoutS)*time.Second)
+					var o obs
+					switch {
+					case e != nil:
+						o = obs{"error:" + e.Error(), "", ""}
+					case ci != nil:
+						v := interpretCrash(ci)
+						o = obs{"crash", "", v.Oracle + "/" + v.Key}
+					case resp.Error != "":
+						o = obs{"harness-error:" + sim.Clip(resp.Error, 200), "", ""}
+					default:
+						var vk []string
+						for _, v := range resp.Result.Violations {
+							vk = append(vk, v.Oracle+"/"+v.Key)
+						}
+						sort.Strings(vk)
+						o = obs{resp.Result.EventHash, fmt.Sprint(sim.HashString(fmt.Sprint(resp.Result.Tape))), strings.Join(vk, ",")}
+					}
+					mu.Lock()
+					if seen[run] == nil {
+						seen[run] = map[obs][]string{}
+					}
+					seen[run][o] = append(seen[run][o], label)
+					mu.Unlock()
+				}
+			}()
+		}
+		wg.Wait()
+		nBad := 0
+		for run, m := range seen {
+			if len(m) > 1 {
+				nBad++
+				if nBad <= 3 {
+					fmt.Printf("NONDETERMINISTIC property=%s run=%d:\n", prop, run)
+					for o, who := range m {
+						fmt.Printf("   hash=%s tape=%s violations=[%s]  <- %d processes e.g. %s\n", o.hash, o.tape, o.viol, len(who), who[0])
+					}
+				}
+			}
+		}
+		fmt.Printf("selftest %s: %d runs x %d processes (GOMAXPROCS 1/4/16, forward+reverse order%s): %d nondeterministic runs (%.1fs)\n",
+			prop, *k, *procs, map[bool]string{true: ", every 5th process a -race worker", false: ""}[cfg.RaceQuickRuns > 0], nBad, time.Since(start).Seconds())
+		bad += nBad
+	}
+	if bad > 0 {
+		return 1
+	}
+	return 0
 }
